@@ -34,8 +34,9 @@ def runCur (gs : List G) (ops : List String) : List String :=
         else if op == "n" then newLine gs p
         else if op == "e" then some (skipTillEol gs gs.length p)
         else if op == "p" then skipPastEol gs p
-        else match S06.unhexStr (op.drop 2).toString with
-          | some tag => if gs.length ≤ p.cursor then none else consumeTag gs p (splitGraphemesLike tag gs p.cursor)
+        else match ((op.drop 2).toString.splitOn "+").mapM S06.unhexStr with
+          -- the tag arrives cut into its own graphemes (harness: unicode-segmentation, as `graphemes::init_tag`)
+          | some tag => if gs.length ≤ p.cursor then none else consumeTag gs p tag
           | none => none
       match r with
       | some q => go rest q (psText true q :: acc)
